@@ -316,7 +316,8 @@ fn unsolved_info(ctx: &mut Ctx, text: &str, cfg: &Cfg, run: &Run, tin: &[Tok]) -
                         without.push_str(&text[pos..]);
                         let r2 = ctx.run(&without, cfg, &[], true);
                         if r2.out.is_ok() && step_args(&r2.events, "wrap_unsolved").len() < step_args(&run.events, "wrap_unsolved").len() {
-                            culprits.extend(sigs);
+                            let _ = sigs;
+                            culprits.push("several comments of the line together".into());
                         } else {
                             culprits.push("not caused by the comments of the line".into());
                         }
